@@ -24,26 +24,27 @@ EXTENDS ProcText, Integers, TLC
 
 ParamDevs == {"type_error_silent", "unknown_param_ignored", "status_string_zero"}
 
-(* A written value:  [t, v]  with t in  str (v: text), int, float (v: the whole part),     *)
-(* bool, slist (texts), nlist (numbers), smap (sequence of <<key text, value text>>),       *)
-(* nil (nothing).                                                                           *)
-Nil == [t |-> "nil", v |-> 0]
-VStr(s) == [t |-> "str", v |-> s]
-VInt(n) == [t |-> "int", v |-> n]
-VFloat(n) == [t |-> "float", v |-> n]
-VBool(b) == [t |-> "bool", v |-> b]
-VSList(l) == [t |-> "slist", v |-> l]
-VNList(l) == [t |-> "nlist", v |-> l]
-VSMap(m) == [t |-> "smap", v |-> m]
+(* A written value:  [t, <payload>]  with t in  str (s: text), int, float (n: the whole     *)
+(* part), bool (b), slist (l: texts), nlist (nl: numbers), smap (m: sequence of <<key text, *)
+(* value text>>), nil (nothing), js (a text that is a script: js = its statements, see      *)
+(* ProcScriptP).  (One payload field per type: TLC cannot compare a number with a text.)    *)
+Nil == [t |-> "nil"]
+VStr(s) == [t |-> "str", s |-> s]
+VInt(n) == [t |-> "int", n |-> n]
+VFloat(n) == [t |-> "float", n |-> n]
+VBool(b) == [t |-> "bool", b |-> b]
+VSList(l) == [t |-> "slist", l |-> l]
+VNList(l) == [t |-> "nlist", nl |-> l]
+VSMap(m) == [t |-> "smap", m |-> m]
 
 \* declared types: string, number, list_of_strings, list_of_numbers, map_of_strings; "strnum" = GenerateResponse.status
 \* (declared string, default and every example a number)
 TypeOK(ty, val) ==
-    CASE ty = "string" -> val.t = "str"
+    CASE ty = "string" -> val.t \in {"str", "js"}
       [] ty = "number" -> val.t \in {"int", "float"}
       [] ty = "strnum" -> val.t \in {"str", "int"}
       [] ty = "list_of_strings" -> val.t = "slist"
-      [] ty = "list_of_numbers" -> val.t \in {"nlist"} \/ (val.t = "slist" /\ val.v = <<>>)
+      [] ty = "list_of_numbers" -> val.t \in {"nlist"} \/ (val.t = "slist" /\ val.l = <<>>)
       [] ty = "map_of_strings" -> val.t = "smap"
       [] OTHER -> FALSE
 
@@ -102,11 +103,12 @@ GenericMayLoad(kind, par, Dev) ==
 Val(kind, par, p) == IF p \in Given(par) THEN par[p] ELSE Decl(kind)[p].def
 
 \* reading a value as a type: a value of another type reads as the zero value (only reachable through type_error_silent)
-AsStr(val) == IF val.t = "str" THEN val.v ELSE <<>>
-AsInt(val) == IF val.t = "int" THEN val.v ELSE 0
-AsSList(val) == IF val.t = "slist" THEN val.v ELSE <<>>
-AsNList(val) == IF val.t = "nlist" THEN val.v ELSE <<>>
-AsSMap(val) == IF val.t = "smap" THEN val.v ELSE <<>>
+AsStr(val) == IF val.t = "str" THEN val.s ELSE <<>>
+AsInt(val) == IF val.t = "int" THEN val.n ELSE 0
+AsSList(val) == IF val.t = "slist" THEN val.l ELSE <<>>
+AsNList(val) == IF val.t = "nlist" THEN val.nl ELSE <<>>
+AsSMap(val) == IF val.t = "smap" THEN val.m ELSE <<>>
+AsJs(val) == IF val.t = "js" THEN val.js ELSE <<>>
 
 -----------------------------------------------------------------------------
 \* decimal digits
